@@ -6,7 +6,12 @@ use std::collections::BTreeMap;
 
 pub mod c08;
 pub mod c14;
+pub mod c17;
+pub mod c19;
 pub mod errs;
+pub mod hiding;
+pub mod hist;
+pub mod values;
 pub mod wirecheck;
 
 pub type Guards = BTreeMap<String, u64>;
@@ -64,6 +69,11 @@ pub fn all() -> Vec<PropDef> {
     v.extend(c08::defs());
     v.extend(c14::defs());
     v.extend(errs::defs());
+    v.extend(hiding::defs());
+    v.extend(c17::defs());
+    v.extend(hist::defs());
+    v.extend(c19::defs());
+    v.extend(values::defs());
     v
 }
 
